@@ -839,8 +839,10 @@ int main(int argc, char** argv) {
         }
         // ---------------- mode sibling: a DIFFERENTLY configured processor of the same class constructed (and used) first in the same
         // thread, still alive while this one is constructed and run; reference: this configuration alone in a fresh thread
-        if (ci > 0) {
-            const Config& pc = C[ci - 1];
+        // quick: the preceding configuration of the catalogue; thorough: EVERY other configuration of the same class
+        for (size_t pj = 0; pj < C.size(); ++pj) {
+            if (pj == ci || (!T && pj + 1 != ci)) continue;
+            const Config& pc = C[pj];
             const std::string kind = c.name.substr(0, c.name.find('(')), pkind = pc.name.substr(0, pc.name.find('('));
             if (kind == pkind && ctx.take("instance.sibling", P().kv("config", c.name).kv("first", pc.name))) {
                 const int G = 24;
